@@ -318,7 +318,17 @@ class Walker:
         d = rng.randint(1, 4)
         N = [rng.randint(1, 4) for _ in range(d)]
         A = int_tensor(rng, N, self.dtype, -3, 3)
-        k = rng.randrange(3)
+        k = rng.randrange(4)
+        if k == 3:
+            # prescribed shape given as a list OBJECT that is shared between several constructor calls (and stays with the caller):
+            # two objects are built from the same list; in-place operations on one must not reach the other
+            flat = int_tensor(rng, [int(np.prod(N))], self.dtype, -3, 3)
+            shape_list = list(N)
+            a = torchtt.TT(flat.reshape(N), shape_list, eps=1e-12)
+            b = torchtt.TT(flat.numpy().reshape(N) * 2, shape_list, eps=1e-12)
+            self.shared_lists = getattr(self, "shared_lists", [])
+            self.shared_lists.append((shape_list, list(N)))
+            return [a, b]
         if k == 0:
             return torchtt.TT(A, eps=rng.choice([1e-12, 1e-2]))
         if k == 1:
